@@ -12,7 +12,7 @@ Proof. exact (new_index_spec kvs o ci). Qed.
 (* every height of s..max readable  ==>  delivered heights are exactly s, s+1, .., max (ascending, each once),
    the run completes, on_complete receives max, and every delivered block is the one stored for its height *)
 Theorem C02_delivers_exact_range c d o ci :
-  d_files d <> [] -> new_index (d_index d) (o_range o) = Ok ci ->
+  range_ok (o_range o) = true -> d_files d <> [] -> new_index (d_index d) (o_range o) = Ok ci ->
   let s := o_start (o_range o) in
   s <= ci_max ci + 1 ->
   (forall h, s <= h <= ci_max ci -> exists b, get_block c d (o_verify o) ci h = Some (inl b)) ->
